@@ -58,16 +58,18 @@ EffTy(f) == IF f.req \/ f.ty.k = "opt" THEN f.ty ELSE OptT(f.ty)
 \* "extend" (Meta = parent's maps + own entries), "own" (Meta lists only the own entries: inherited fields that are
 \* not overridden fall back to their python names).  Fs(cl, n) = all fields of n, inherited first.
 HasParent(cl, n) == "extends" \in DOMAIN cl[n]
-RECURSIVE Fs(_, _)
-Fs(cl, n) ==
+RECURSIVE FsRec(_, _)
+FsRec(cl, n) ==
   IF ~HasParent(cl, n) THEN cl[n].fields
   ELSE LET own == cl[n].fields
-           inh == Fs(cl, cl[n].extends)
+           inh == FsRec(cl, cl[n].extends)
            ownAt(py) == own[CHOOSE i \in 1..Len(own) : own[i].py = py]
            adj(f) == IF \E i \in 1..Len(own) : own[i].py = f.py THEN ownAt(f.py)
                      ELSE IF cl[n].meta = "own" THEN [f EXCEPT !.wire = f.py] ELSE f
        IN [i \in 1..Len(inh) |-> adj(inh[i])]
           \o SelectSeq(own, LAMBDA f : ~\E i \in 1..Len(inh) : inh[i].py = f.py)
+\* (non-recursive front: TLC's -coverage mode makes every application of a RECURSIVE operator very expensive)
+Fs(cl, n) == IF HasParent(cl, n) THEN FsRec(cl, n) ELSE cl[n].fields
 \* the same table with every hierarchy resolved (each class lists all of its fields, no `extends`): what the
 \* semantic operators below are applied to (Fs of a flat table is a plain field access)
 Flat(cl) == [n \in DOMAIN cl |->
